@@ -2166,14 +2166,14 @@ theorem ctcAux_single_set (l : Leaf) :
     | cons n p' =>
       cases p' with
       | nil =>
-        simp [ctcAux, ctcDirect, set_file_of_insert hins]
+        simp [ctcAux, ctcDirect, ctcSets, set_file_of_insert hins]
       | cons m q =>
         have hlen' : (m :: q).length < fuel := by simp at hlen ⊢; omega
         rcases insert_deep hwf hins with ⟨hf, hs⟩ | ⟨sub, sub', hf, hi, hs⟩
         · have := ih (m :: q) .nil (mkPath l .nil m q) hlen' rfl (by simp [Tree.insert])
-          simp [ctcAux, ctcDirect, groupAdd, hf, this, mkPath_isNil, hs]
+          simp [ctcAux, ctcDirect, ctcGroup, ctcOrig, ctcSets, groupAdd, hf, this, mkPath_isNil, hs]
         · have := ih (m :: q) sub sub' hlen' (find_dir_WF hwf hf) hi
-          simp [ctcAux, ctcDirect, groupAdd, hf, this, insert_isNil hi, hs]
+          simp [ctcAux, ctcDirect, ctcGroup, ctcOrig, ctcSets, groupAdd, hf, this, insert_isNil hi, hs]
 
 /-! ### commit_tree_changes: one removed entry (with pruning of emptied directories) -/
 
@@ -2475,7 +2475,7 @@ theorem ctcAux_single_del :
             | dir s => rw [hf] at hlk; simp [flattenN, lookupL_flatten_nil] at hlk
         rcases hfind with ⟨l, hf⟩
         rcases del_of_find hf with ⟨t', hdel⟩
-        refine ⟨t', by simp [ctcAux, ctcDirect, hdel], del_WF hwf hdel, ?_⟩
+        refine ⟨t', by simp [ctcAux, ctcDirect, ctcSets, hdel], del_WF hwf hdel, ?_⟩
         apply sorted_ext (flatten_sorted (del_WF hwf hdel)) ((flatten_sorted hwf).filter _)
         intro x
         rw [lookupL_filter (fun q => q != [n])]
@@ -2516,7 +2516,7 @@ theorem ctcAux_single_del :
           intro q0; rw [hfl', lookupL_filter (fun z => z != m :: q)]
         by_cases hnil : sub'.isNil = true
         · rcases del_of_find hf with ⟨t', hdel⟩
-          refine ⟨t', by simp [ctcAux, ctcDirect, groupAdd, hf, hctc, hnil, hdel], del_WF hwf hdel, ?_⟩
+          refine ⟨t', by simp [ctcAux, ctcDirect, ctcGroup, ctcOrig, ctcSets, groupAdd, hf, hctc, hnil, hdel], del_WF hwf hdel, ?_⟩
           apply sorted_ext (flatten_sorted (del_WF hwf hdel)) ((flatten_sorted hwf).filter _)
           intro x
           rw [lookupL_filter (fun z => z != n :: m :: q)]
@@ -2540,7 +2540,7 @@ theorem ctcAux_single_del :
                 rw [ne_bne_path]; intro hh; injection hh with h1 _; exact hk h1
               simp [hk, this]
         · have hnil' : sub'.isNil = false := by simpa using hnil
-          refine ⟨t.set n (.dir sub'), by simp [ctcAux, ctcDirect, groupAdd, hf, hctc, hnil'],
+          refine ⟨t.set n (.dir sub'), by simp [ctcAux, ctcDirect, ctcGroup, ctcOrig, ctcSets, groupAdd, hf, hctc, hnil'],
             set_dir_WF hwf hwf' hnil', ?_⟩
           apply sorted_ext (flatten_sorted (set_dir_WF hwf hwf' hnil')) ((flatten_sorted hwf).filter _)
           intro x
@@ -2665,5 +2665,1231 @@ theorem splitPath_joinPath {p : Path} (hne : p ≠ []) (hv : p.all validName = t
       have := ih (by simp) hv.2
       simp only [splitPath] at this
       rw [this]
+
+/-! ### commit_tree_changes on whole change lists: the three loops -/
+
+/-- names removed directly from this tree, in order -/
+def dDels : List TChange → List Name
+  | [] => []
+  | (p, v) :: cs => match p, v with
+    | [n], none => n :: dDels cs
+    | _, _ => dDels cs
+
+/-- entries stored directly in this tree, in order -/
+def dSets : List TChange → List (Name × Leaf)
+  | [] => []
+  | (p, v) :: cs => match p, v with
+    | [n], some l => (n, l) :: dSets cs
+    | _, _ => dSets cs
+
+/-- the nested changes with their first component split off -/
+def nestedOf : List TChange → List (Name × TChange)
+  | [] => []
+  | (p, v) :: cs => match p with
+    | n :: m :: q => (n, (m :: q, v)) :: nestedOf cs
+    | _ => nestedOf cs
+
+def delAll : Tree → List Name → Option Tree
+  | t, [] => some t
+  | t, n :: ns => match t.del n with
+    | none => none
+    | some t' => delAll t' ns
+
+def groupAll (gs : List (Name × List TChange)) (nd : List (Name × TChange)) : List (Name × List TChange) :=
+  nd.foldl (fun gs x => groupAdd x.1 x.2 gs) gs
+
+theorem ctcDirect_eq (cs : List TChange) (hne : ∀ c ∈ cs, c.1 ≠ []) :
+    ∀ (t : Tree) (gs : List (Name × List TChange)) (ss : List (Name × Leaf)),
+      ctcDirect t gs ss cs = match delAll t (dDels cs) with
+        | none => .error .key
+        | some t' => .ok (t', groupAll gs (nestedOf cs), ss ++ dSets cs) := by
+  induction cs with
+  | nil => intro t gs ss; simp [ctcDirect, dDels, delAll, groupAll, nestedOf, dSets]
+  | cons c cs ih =>
+    intro t gs ss
+    obtain ⟨p, v⟩ := c
+    have ih' := ih (fun c hc => hne c (List.mem_cons_of_mem _ hc))
+    cases p with
+    | nil => exact absurd rfl (hne ([], v) List.mem_cons_self)
+    | cons n p' =>
+      cases p' with
+      | nil =>
+        cases v with
+        | none =>
+          simp only [ctcDirect, dDels, delAll, nestedOf, dSets]
+          cases hd : t.del n with
+          | none => rfl
+          | some t' => simp only [ih']
+        | some l =>
+          simp only [ctcDirect, dDels, nestedOf, dSets, ih', List.append_assoc, List.singleton_append]
+      | cons m q =>
+        simp only [ctcDirect, dDels, nestedOf, dSets, ih', groupAll, List.foldl_cons]
+
+/-! #### groups -/
+
+def gnames {β : Type} (gs : List (Name × β)) : List Name := gs.map (·.1)
+
+theorem assoc_groupAdd (n : Name) (c : TChange) (gs : List (Name × List TChange)) (k : Name) :
+    assoc (groupAdd n c gs) k = if k = n then some ((assoc gs n).getD [] ++ [c]) else assoc gs k := by
+  induction gs with
+  | nil =>
+    simp only [groupAdd, assoc_cons]
+    by_cases h : n = k
+    · subst h; simp [assoc]
+    · have : ¬ k = n := fun hh => h hh.symm
+      simp [h, this, assoc]
+  | cons g gs ih =>
+    obtain ⟨m, l⟩ := g
+    simp only [groupAdd]
+    split
+    · rename_i hmn
+      subst hmn
+      simp only [assoc_cons]
+      by_cases h : m = k
+      · subst h; simp
+      · have : ¬ k = m := fun hh => h hh.symm
+        simp [h, this]
+    · rename_i hmn
+      simp only [assoc_cons, ih]
+      by_cases h : m = k
+      · subst h
+        have : ¬ m = n := hmn
+        simp [this]
+      · simp [h, hmn]
+
+theorem gnames_groupAdd (n : Name) (c : TChange) (gs : List (Name × List TChange)) (k : Name) :
+    k ∈ gnames (groupAdd n c gs) ↔ k = n ∨ k ∈ gnames gs := by
+  induction gs with
+  | nil => simp [groupAdd, gnames]
+  | cons g gs ih =>
+    obtain ⟨m, l⟩ := g
+    simp only [groupAdd]
+    split
+    · rename_i hmn
+      subst hmn
+      simp only [gnames, List.map_cons, List.mem_cons]
+      constructor
+      · intro h; exact Or.inr h
+      · intro h; rcases h with h | h
+        · exact Or.inl h
+        · exact h
+    · simp only [gnames, List.map_cons, List.mem_cons] at ih ⊢
+      rw [ih]
+      constructor
+      · rintro (h | h | h)
+        · exact Or.inr (Or.inl h)
+        · exact Or.inl h
+        · exact Or.inr (Or.inr h)
+      · rintro (h | h | h)
+        · exact Or.inr (Or.inl h)
+        · exact Or.inl h
+        · exact Or.inr (Or.inr h)
+
+theorem nodup_groupAdd (n : Name) (c : TChange) (gs : List (Name × List TChange)) (h : (gnames gs).Nodup) :
+    (gnames (groupAdd n c gs)).Nodup := by
+  induction gs with
+  | nil => simp [groupAdd, gnames]
+  | cons g gs ih =>
+    obtain ⟨m, l⟩ := g
+    have h' := List.nodup_cons.mp h
+    simp only [groupAdd]
+    split
+    · exact h
+    · rename_i hmn
+      show (m :: gnames (groupAdd n c gs)).Nodup
+      refine List.nodup_cons.mpr ⟨?_, ih h'.2⟩
+      intro hm
+      rcases (gnames_groupAdd n c gs m).mp hm with h1 | h1
+      · exact hmn h1
+      · exact h'.1 h1
+
+/-- the nested changes below `k`, in order -/
+def subOf (k : Name) (nd : List (Name × TChange)) : List TChange :=
+  nd.filterMap (fun x => if x.1 = k then some x.2 else none)
+
+theorem subOf_cons (k : Name) (x : Name × TChange) (nd : List (Name × TChange)) :
+    subOf k (x :: nd) = (if x.1 = k then [x.2] else []) ++ subOf k nd := by
+  simp only [subOf, List.filterMap_cons]
+  by_cases h : x.1 = k <;> simp [h]
+
+theorem groupAll_spec (nd : List (Name × TChange)) :
+    ∀ gs : List (Name × List TChange), (gnames gs).Nodup →
+      (gnames (groupAll gs nd)).Nodup ∧
+      (∀ k, assoc (groupAll gs nd) k =
+        if subOf k nd = [] then assoc gs k else some ((assoc gs k).getD [] ++ subOf k nd)) ∧
+      (∀ k, k ∈ gnames (groupAll gs nd) ↔ k ∈ gnames gs ∨ subOf k nd ≠ []) := by
+  induction nd with
+  | nil => intro gs h; simp [groupAll, subOf, h]
+  | cons x nd ih =>
+    intro gs h
+    have := ih (groupAdd x.1 x.2 gs) (nodup_groupAdd _ _ _ h)
+    refine ⟨this.1, ?_, ?_⟩
+    · intro k
+      show assoc (groupAll (groupAdd x.1 x.2 gs) nd) k = _
+      rw [this.2.1 k, assoc_groupAdd, subOf_cons]
+      by_cases hk : x.1 = k
+      · subst hk
+        by_cases hs : subOf x.1 nd = []
+        · simp [hs]
+        · simp [hs, List.append_assoc]
+      · have hk' : ¬ k = x.1 := fun hh => hk hh.symm
+        simp [hk, hk']
+    · intro k
+      show k ∈ gnames (groupAll (groupAdd x.1 x.2 gs) nd) ↔ _
+      rw [this.2.2 k, gnames_groupAdd, subOf_cons]
+      by_cases hk : x.1 = k
+      · subst hk; simp
+      · have hk' : ¬ k = x.1 := fun hh => hk hh.symm
+        simp [hk, hk']
+
+theorem assoc_of_mem {β : Type} {gs : List (Name × β)} (hnd : (gnames gs).Nodup) {g : Name × β} (hg : g ∈ gs) :
+    assoc gs g.1 = some g.2 := by
+  induction gs with
+  | nil => cases hg
+  | cons x xs ih =>
+    have h' := List.nodup_cons.mp hnd
+    rw [assoc_cons]
+    rcases List.mem_cons.mp hg with rfl | hg
+    · simp
+    · have : ¬ x.1 = g.1 := by
+        intro heq
+        apply h'.1
+        show x.1 ∈ gnames xs
+        rw [heq]
+        exact List.mem_map_of_mem hg
+      simp [this, ih h'.2 hg]
+
+theorem assoc_none_iff {β : Type} (gs : List (Name × β)) (k : Name) : assoc gs k = none ↔ k ∉ gnames gs := by
+  induction gs with
+  | nil => simp [assoc, gnames]
+  | cons x xs ih =>
+    rw [assoc_cons]
+    simp only [gnames, List.map_cons, List.mem_cons] at ih ⊢
+    by_cases h : x.1 = k
+    · subst h; simp
+    · have : ¬ k = x.1 := fun hh => h hh.symm
+      simp [h, this, ih]
+
+/-! #### find after set / del; the three folds -/
+
+theorem find_set (t : Tree) (n : Name) (nd : Node) (k : Name) :
+    (t.set n nd).find k = if k = n then some nd else t.find k := by
+  induction t with
+  | nil => cases nd <;> simp [Tree.set, Tree.find]
+  | file m lf r ih =>
+    simp only [Tree.set]
+    split
+    · rename_i hlt
+      cases nd <;> (by_cases hk : k = n <;> simp [Tree.find, hk])
+    · split
+      · rename_i heq
+        subst heq
+        cases nd <;> (by_cases hk : k = n <;> simp [Tree.find, hk])
+      · rename_i hne
+        simp only [Tree.find, ih]
+        by_cases hk : k = m
+        · have : ¬ k = n := fun hh => hne (hh ▸ hk)
+          simp [hk, this]
+          intro h; exact absurd h.symm hne
+        · simp [hk]
+  | dir m cs r _ ih =>
+    simp only [Tree.set]
+    split
+    · cases nd <;> (by_cases hk : k = n <;> simp [Tree.find, hk])
+    · split
+      · rename_i heq
+        subst heq
+        cases nd <;> (by_cases hk : k = n <;> simp [Tree.find, hk])
+      · rename_i hne
+        simp only [Tree.find, ih]
+        by_cases hk : k = m
+        · simp [hk]
+          intro h; exact absurd h.symm hne
+        · simp [hk]
+
+theorem find_del {t t' : Tree} {n : Name} (hwf : t.WF = true) (h : t.del n = some t') (k : Name) :
+    t'.find k = if k = n then none else t.find k := by
+  induction t generalizing t' with
+  | nil => cases h
+  | file m lf r ih =>
+    simp only [Tree.WF, Bool.and_eq_true] at hwf
+    simp only [Tree.del] at h
+    split at h
+    · rename_i hnm
+      simp only [Option.some.injEq] at h; subst h; subst hnm
+      by_cases hk : k = n
+      · subst hk; simp [find_none_of_allGt hwf.1.2]
+      · simp [Tree.find, hk]
+    · rename_i hnm
+      cases hr : r.del n with
+      | none => simp [hr] at h
+      | some r' =>
+        simp only [hr, Option.map_some, Option.some.injEq] at h; subst h
+        simp only [Tree.find, ih hwf.2 hr]
+        by_cases hk : k = m
+        · have : ¬ k = n := fun hh => hnm (hh ▸ hk ▸ rfl)
+          simp [hk, this]
+          intro hh; exact absurd hh.symm hnm
+        · simp [hk]
+  | dir m cs r _ ih =>
+    simp only [Tree.WF, Bool.and_eq_true] at hwf
+    simp only [Tree.del] at h
+    split at h
+    · rename_i hnm
+      simp only [Option.some.injEq] at h; subst h; subst hnm
+      by_cases hk : k = n
+      · subst hk; simp [find_none_of_allGt hwf.1.2]
+      · simp [Tree.find, hk]
+    · rename_i hnm
+      cases hr : r.del n with
+      | none => simp [hr] at h
+      | some r' =>
+        simp only [hr, Option.map_some, Option.some.injEq] at h; subst h
+        simp only [Tree.find, ih hwf.2 hr]
+        by_cases hk : k = m
+        · simp [hk]
+          intro hh; exact absurd hh.symm hnm
+        · simp [hk]
+
+theorem set_file_WF {t : Tree} {n : Name} {l : Leaf} (hwf : t.WF = true) (hl : isDirMode l.mode = false) :
+    (t.set n (.file l)).WF = true := by
+  induction t with
+  | nil => simp [Tree.set, Tree.WF, hl, Tree.allGt]
+  | file m lf r ih =>
+    simp only [Tree.WF, Bool.and_eq_true] at hwf
+    simp only [Tree.set]
+    split
+    · rename_i hlt
+      simp [Tree.WF, hl, Tree.allGt, hlt, allGt_trans hwf.1.2 hlt, hwf.1.1, hwf.1.2, hwf.2]
+    · rename_i hnlt
+      split
+      · rename_i heq
+        subst heq
+        simp [Tree.WF, hl, hwf.1.2, hwf.2]
+      · rename_i hne
+        have hmn : m < n := by
+          rcases name_tri n m with h1 | h1 | h1
+          · exact absurd h1 hnlt
+          · exact absurd h1 hne
+          · exact h1
+        simp [Tree.WF, hwf.1.1, set_allGt _ hmn hwf.1.2, ih hwf.2]
+  | dir m cs r _ ih =>
+    simp only [Tree.WF, Bool.and_eq_true] at hwf
+    simp only [Tree.set]
+    split
+    · rename_i hlt
+      simp [Tree.WF, hl, Tree.allGt, hlt, allGt_trans hwf.1.2 hlt, hwf.1.1.1, hwf.1.1.2, hwf.1.2, hwf.2]
+    · rename_i hnlt
+      split
+      · rename_i heq
+        subst heq
+        simp [Tree.WF, hl, hwf.1.2, hwf.2]
+      · rename_i hne
+        have hmn : m < n := by
+          rcases name_tri n m with h1 | h1 | h1
+          · exact absurd h1 hnlt
+          · exact absurd h1 hne
+          · exact h1
+        simp [Tree.WF, hwf.1.1.1, hwf.1.1.2, set_allGt _ hmn hwf.1.2, ih hwf.2]
+
+theorem del_some_of_find_ne_none {t : Tree} {n : Name} (h : t.find n ≠ none) : ∃ t', t.del n = some t' := by
+  cases hf : t.find n with
+  | none => exact absurd hf h
+  | some nd => exact del_of_find hf
+
+/-- first loop: removing a list of distinct names that are all present -/
+theorem delAll_spec : ∀ (ns : List Name) (t : Tree), t.WF = true → ns.Nodup → (∀ n ∈ ns, t.find n ≠ none) →
+    ∃ t1, delAll t ns = some t1 ∧ t1.WF = true ∧ ∀ k, t1.find k = if k ∈ ns then none else t.find k := by
+  intro ns
+  induction ns with
+  | nil => intro t hwf _ _; exact ⟨t, rfl, hwf, by simp⟩
+  | cons n ns ih =>
+    intro t hwf hnd hex
+    have hnd' := List.nodup_cons.mp hnd
+    rcases del_some_of_find_ne_none (hex n List.mem_cons_self) with ⟨t', hd⟩
+    have hf := find_del hwf hd
+    rcases ih t' (del_WF hwf hd) hnd'.2 (by
+      intro m hm
+      rw [hf]
+      have : ¬ m = n := fun hh => hnd'.1 (hh ▸ hm)
+      simp only [this, if_false]
+      exact hex m (List.mem_cons_of_mem _ hm)) with ⟨t1, h1, hwf1, hfind⟩
+    refine ⟨t1, by simp [delAll, hd, h1], hwf1, ?_⟩
+    intro k
+    rw [hfind, hf]
+    by_cases hk : k = n
+    · subst hk; simp
+    · simp [hk]
+
+/-- third loop: storing a list of entries with distinct names -/
+theorem ctcSets_spec : ∀ (ss : List (Name × Leaf)) (t : Tree), t.WF = true →
+    (∀ s ∈ ss, isDirMode s.2.mode = false) → (gnames ss).Nodup →
+    (ctcSets t ss).WF = true ∧
+    ∀ k, (ctcSets t ss).find k = match assoc ss k with
+      | some l => some (.file l)
+      | none => t.find k := by
+  intro ss
+  induction ss with
+  | nil => intro t hwf _ _; exact ⟨hwf, by simp [ctcSets, assoc]⟩
+  | cons s ss ih =>
+    intro t hwf hl hnd
+    have hnd' := List.nodup_cons.mp hnd
+    have := ih (t.set s.1 (.file s.2)) (set_file_WF hwf (hl s List.mem_cons_self))
+      (fun x hx => hl x (List.mem_cons_of_mem _ hx)) hnd'.2
+    refine ⟨this.1, ?_⟩
+    intro k
+    show (ctcSets (t.set s.1 (.file s.2)) ss).find k = _
+    rw [this.2 k, assoc_cons, find_set]
+    by_cases hk : s.1 = k
+    · subst hk
+      have : assoc ss s.1 = none := (assoc_none_iff ss s.1).mpr hnd'.1
+      simp [this]
+    · have : ¬ k = s.1 := fun hh => hk hh.symm
+      simp [hk, this]
+
+/-- the sub-tree a name holds if it holds a directory, the empty tree otherwise -/
+def dirOr (t : Tree) (k : Name) : Tree :=
+  match t.find k with
+  | some (.dir s) => s
+  | _ => .nil
+
+/-- second loop: every group `g` starts from `origs g.1`, its recursive call yields `rb g.1` -/
+theorem groups_fold_spec (rec : Tree → List TChange → Except CtcErr Tree) (rb : Name → Tree) :
+    ∀ (G : List (Name × List TChange)) (t1 : Tree), t1.WF = true → (gnames G).Nodup →
+      (∀ g ∈ G, ∃ sub, ctcOrig t1 g.1 = .ok sub ∧ rec sub g.2 = .ok (rb g.1) ∧ (rb g.1).WF = true ∧
+        ((rb g.1).isNil = true → t1.find g.1 ≠ none)) →
+      ∃ t2, G.foldl (ctcGroup rec) (.ok t1) = .ok t2 ∧ t2.WF = true ∧
+        ∀ k, t2.find k = if k ∈ gnames G then (if (rb k).isNil then none else some (.dir (rb k))) else t1.find k := by
+  intro G
+  induction G with
+  | nil => intro t1 hwf _ _; exact ⟨t1, rfl, hwf, by simp [gnames]⟩
+  | cons g G ih =>
+    intro t1 hwf hnd hg
+    have hnd' := List.nodup_cons.mp hnd
+    rcases hg g List.mem_cons_self with ⟨sub, horig, hrec, hrwf, hnil⟩
+    -- the tree after this group
+    have hstep : ∃ t1', ctcGroup rec (.ok t1) g = .ok t1' ∧ t1'.WF = true ∧
+        ∀ k, t1'.find k = if k = g.1 then (if (rb g.1).isNil then none else some (.dir (rb g.1))) else t1.find k := by
+      by_cases hn : (rb g.1).isNil = true
+      · rcases del_some_of_find_ne_none (hnil hn) with ⟨t', hd⟩
+        refine ⟨t', by simp [ctcGroup, horig, hrec, hn, hd], del_WF hwf hd, ?_⟩
+        intro k; rw [find_del hwf hd]; simp [hn]
+      · have hn' : (rb g.1).isNil = false := by simpa using hn
+        refine ⟨t1.set g.1 (.dir (rb g.1)), by simp [ctcGroup, horig, hrec, hn'], set_dir_WF hwf hrwf hn', ?_⟩
+        intro k; rw [find_set]; simp [hn']
+    rcases hstep with ⟨t1', hs, hwf', hf'⟩
+    have hrest : ∀ g' ∈ G, ∃ sub, ctcOrig t1' g'.1 = .ok sub ∧ rec sub g'.2 = .ok (rb g'.1) ∧ (rb g'.1).WF = true ∧
+        ((rb g'.1).isNil = true → t1'.find g'.1 ≠ none) := by
+      intro g' hg'
+      have hne : ¬ g'.1 = g.1 := by
+        intro heq
+        apply hnd'.1
+        show g.1 ∈ gnames G
+        rw [← heq]; exact List.mem_map_of_mem hg'
+      rcases hg g' (List.mem_cons_of_mem _ hg') with ⟨sub', ho', hr', hw', hn'⟩
+      have hfe : t1'.find g'.1 = t1.find g'.1 := by rw [hf']; simp [hne]
+      refine ⟨sub', ?_, hr', hw', ?_⟩
+      · simp only [ctcOrig, hfe] at ho' ⊢; exact ho'
+      · rw [hfe]; exact hn'
+    rcases ih t1' hwf' hnd'.2 hrest with ⟨t2, h2, hwf2, hf2⟩
+    refine ⟨t2, by rw [List.foldl_cons, hs, h2], hwf2, ?_⟩
+    intro k
+    rw [hf2, hf']
+    show _ = if k ∈ g.1 :: gnames G then _ else _
+    by_cases hk : k = g.1
+    · have : g.1 ∉ gnames G := hnd'.1
+      simp [hk, this]
+    · simp [hk]
+
+/-! #### the change list of a diff, as a function of the two flat listings -/
+
+def toDel (e : Entry) : TChange := (e.path, none)
+def toSet (e : Entry) : TChange := (e.path, some ⟨e.mode, e.id⟩)
+
+/-- entries of `la` whose path `lb` does not hold at all -/
+def specDels (la lb : List Entry) : List Entry := la.filter (fun e => (lookupL lb e.path).isNone)
+/-- entries of `lb` that `la` does not hold identically -/
+def specSets (la lb : List Entry) : List Entry := lb.filter (fun e => lookupL la e.path != some e)
+
+/-- `toTChanges` of any change list that is a diff of `la` → `lb` -/
+def specT (la lb : List Entry) : List TChange := (specDels la lb).map toDel ++ (specSets la lb).map toSet
+
+theorem toTChanges_eq_specT {cs : List Change} {la lb : List Entry} (hsa : SortedL la) (hsb : SortedL lb)
+    (hA : addedEntries cs = lb.filter (fun e => lookupL la e.path != some e))
+    (hR : removedPaths cs = (la.filter (fun e => lookupL lb e.path != some e)).map (·.path)) :
+    toTChanges cs = specT la lb := by
+  simp only [toTChanges, specT, hA, hR]
+  congr 1
+  rw [List.filter_map, List.map_map, List.filter_filter]
+  unfold specDels toDel
+  have : la.filter (fun a => ((fun p => !(List.map (fun x => x.path)
+        (lb.filter (fun e => lookupL la e.path != some e))).contains p) ∘ fun x => x.path) a &&
+        (lookupL lb a.path != some a)) = la.filter (fun e => (lookupL lb e.path).isNone) := by
+    apply List.filter_congr
+    intro e he
+    have hla : lookupL la e.path = some e := lookupL_of_mem hsa he
+    cases hb : lookupL lb e.path with
+    | none =>
+      have : ¬ e.path ∈ List.map (fun x => x.path) (lb.filter (fun e => lookupL la e.path != some e)) := by
+        intro hm
+        rcases List.mem_map.mp hm with ⟨eb, heb, hp⟩
+        exact lookupL_eq_none.mp hb eb (List.mem_filter.mp heb).1 hp
+      simp [this]
+    | some eb =>
+      have hbm := lookupL_some_mem hb
+      have hbp := lookupL_some_path hb
+      by_cases heq : eb = e
+      · subst heq; simp
+      · have : e.path ∈ List.map (fun x => x.path) (lb.filter (fun e => lookupL la e.path != some e)) := by
+          apply List.mem_map.mpr
+          refine ⟨eb, List.mem_filter.mpr ⟨hbm, ?_⟩, hbp⟩
+          rw [hbp, hla]
+          simp only [bne_iff_ne, ne_eq, Option.some.injEq]
+          exact fun h => heq h.symm
+        simp [this]
+  rw [this]
+  rfl
+
+/-! #### direct parts of `specT` -/
+
+def nameOfSingle (p : Path) : Option Name :=
+  match p with
+  | [n] => some n
+  | _ => none
+
+theorem dDels_append (xs ys : List TChange) : dDels (xs ++ ys) = dDels xs ++ dDels ys := by
+  induction xs with
+  | nil => rfl
+  | cons c cs ih =>
+    obtain ⟨p, v⟩ := c
+    simp only [List.cons_append, dDels]
+    split <;> simp [ih]
+
+theorem dSets_append (xs ys : List TChange) : dSets (xs ++ ys) = dSets xs ++ dSets ys := by
+  induction xs with
+  | nil => rfl
+  | cons c cs ih =>
+    obtain ⟨p, v⟩ := c
+    simp only [List.cons_append, dSets]
+    split <;> simp [ih]
+
+theorem dDels_map_toSet (l : List Entry) : dDels (l.map toSet) = [] := by
+  induction l with
+  | nil => rfl
+  | cons e es ih => simp only [List.map_cons, toSet, dDels]; split <;> simp_all [toSet]
+
+theorem dSets_map_toDel (l : List Entry) : dSets (l.map toDel) = [] := by
+  induction l with
+  | nil => rfl
+  | cons e es ih => simp only [List.map_cons, toDel, dSets]; split <;> simp_all [toDel]
+
+theorem dDels_map_toDel (l : List Entry) : dDels (l.map toDel) = l.filterMap (fun e => nameOfSingle e.path) := by
+  induction l with
+  | nil => rfl
+  | cons e es ih =>
+    simp only [List.map_cons, toDel, dDels, List.filterMap_cons]
+    cases hp : e.path with
+    | nil => simp [nameOfSingle, toDel]; exact ih
+    | cons n q =>
+      cases q with
+      | nil => simp [nameOfSingle, toDel]; exact ih
+      | cons m q' => simp [nameOfSingle, toDel]; exact ih
+
+theorem dSets_map_toSet (l : List Entry) :
+    dSets (l.map toSet) = l.filterMap (fun e => (nameOfSingle e.path).map (fun n => (n, (⟨e.mode, e.id⟩ : Leaf)))) := by
+  induction l with
+  | nil => rfl
+  | cons e es ih =>
+    simp only [List.map_cons, toSet, dSets, List.filterMap_cons]
+    cases hp : e.path with
+    | nil => simp [nameOfSingle, toSet]; exact ih
+    | cons n q =>
+      cases q with
+      | nil => simp [nameOfSingle, toSet]; exact ih
+      | cons m q' => simp [nameOfSingle, toSet]; exact ih
+
+theorem dDels_specT (la lb : List Entry) :
+    dDels (specT la lb) = (specDels la lb).filterMap (fun e => nameOfSingle e.path) := by
+  simp [specT, dDels_append, dDels_map_toSet, dDels_map_toDel]
+
+theorem dSets_specT (la lb : List Entry) :
+    dSets (specT la lb) =
+      (specSets la lb).filterMap (fun e => (nameOfSingle e.path).map (fun n => (n, (⟨e.mode, e.id⟩ : Leaf)))) := by
+  simp [specT, dSets_append, dSets_map_toDel, dSets_map_toSet]
+
+theorem nodup_filterMap_single {l : List Entry} (h : (l.map (·.path)).Nodup) :
+    (l.filterMap (fun e => nameOfSingle e.path)).Nodup := by
+  have : l.filterMap (fun e => nameOfSingle e.path) = (l.map (·.path)).filterMap nameOfSingle := by
+    rw [List.filterMap_map]; rfl
+  rw [this]
+  rw [List.Nodup, List.pairwise_filterMap]
+  refine h.imp ?_
+  intro a a' hne b hb b' hb' heq
+  apply hne
+  subst heq
+  cases a with
+  | nil => simp [nameOfSingle] at hb
+  | cons n q =>
+    cases q with
+    | cons _ _ => simp [nameOfSingle] at hb
+    | nil =>
+      cases a' with
+      | nil => simp [nameOfSingle] at hb'
+      | cons n' q' =>
+        cases q' with
+        | cons _ _ => simp [nameOfSingle] at hb'
+        | nil =>
+          simp only [nameOfSingle, Option.mem_def, Option.some.injEq] at hb hb'
+          rw [hb, hb']
+
+theorem specDels_nodup {la : List Entry} (hsa : SortedL la) (lb : List Entry) : ((specDels la lb).map (·.path)).Nodup :=
+  hsa.nodup_paths.sublist (List.filter_sublist.map _)
+
+theorem specSets_nodup (la : List Entry) {lb : List Entry} (hsb : SortedL lb) : ((specSets la lb).map (·.path)).Nodup :=
+  hsb.nodup_paths.sublist (List.filter_sublist.map _)
+
+theorem dDels_specT_nodup {la : List Entry} (hsa : SortedL la) (lb : List Entry) : (dDels (specT la lb)).Nodup := by
+  rw [dDels_specT]; exact nodup_filterMap_single (specDels_nodup hsa lb)
+
+theorem gnames_dSets_specT (la lb : List Entry) :
+    gnames (dSets (specT la lb)) = (specSets la lb).filterMap (fun e => nameOfSingle e.path) := by
+  rw [dSets_specT, gnames, List.map_filterMap]
+  congr 1
+  funext e
+  cases nameOfSingle e.path <;> rfl
+
+theorem dSets_specT_nodup (la : List Entry) {lb : List Entry} (hsb : SortedL lb) : (gnames (dSets (specT la lb))).Nodup := by
+  rw [gnames_dSets_specT]; exact nodup_filterMap_single (specSets_nodup la hsb)
+
+theorem mem_dDels_specT {la lb : List Entry} {k : Name} :
+    k ∈ dDels (specT la lb) ↔ ∃ e ∈ la, e.path = [k] ∧ lookupL lb [k] = none := by
+  rw [dDels_specT, List.mem_filterMap]
+  constructor
+  · rintro ⟨e, he, hn⟩
+    have hm := List.mem_filter.mp he
+    have hp : e.path = [k] := by
+      cases hq : e.path with
+      | nil => rw [hq] at hn; simp [nameOfSingle] at hn
+      | cons n q =>
+        cases q with
+        | nil => rw [hq] at hn; simp only [nameOfSingle, Option.some.injEq] at hn; rw [hn]
+        | cons _ _ => rw [hq] at hn; simp [nameOfSingle] at hn
+    refine ⟨e, hm.1, hp, ?_⟩
+    have := hm.2
+    rw [hp] at this
+    simpa using this
+  · rintro ⟨e, he, hp, hn⟩
+    refine ⟨e, List.mem_filter.mpr ⟨he, by rw [hp, hn]; rfl⟩, by rw [hp]; rfl⟩
+
+theorem mem_dSets_specT {la lb : List Entry} {k : Name} {l : Leaf} :
+    (k, l) ∈ dSets (specT la lb) ↔ (⟨[k], l.mode, l.id⟩ : Entry) ∈ lb ∧ lookupL la [k] ≠ some ⟨[k], l.mode, l.id⟩ := by
+  rw [dSets_specT, List.mem_filterMap]
+  constructor
+  · rintro ⟨e, he, hn⟩
+    have hm := List.mem_filter.mp he
+    have hp : e.path = [k] ∧ l = ⟨e.mode, e.id⟩ := by
+      cases hq : e.path with
+      | nil => rw [hq] at hn; simp [nameOfSingle] at hn
+      | cons n q =>
+        cases q with
+        | nil =>
+          rw [hq] at hn
+          simp only [nameOfSingle, Option.map_some, Option.some.injEq, Prod.mk.injEq] at hn
+          exact ⟨by rw [hn.1], hn.2.symm⟩
+        | cons _ _ => rw [hq] at hn; simp [nameOfSingle] at hn
+    have he' : e = ⟨[k], l.mode, l.id⟩ := by
+      cases e; simp only [Entry.mk.injEq] at hp ⊢; rw [hp.2]; exact ⟨hp.1, rfl, rfl⟩
+    rw [← he']
+    refine ⟨hm.1, ?_⟩
+    have := hm.2
+    rw [he'] at this ⊢
+    simpa using this
+  · rintro ⟨he, hne⟩
+    refine ⟨⟨[k], l.mode, l.id⟩, List.mem_filter.mpr ⟨he, by simpa using hne⟩, ?_⟩
+    simp [nameOfSingle]
+
+/-! #### the nested part of `specT` below one name is the `specT` of the two sub-trees -/
+
+/-- an entry at `k/m/q…` relative to the directory `k` -/
+def stripHead (k : Name) (e : Entry) : Option Entry :=
+  match e.path with
+  | n :: m :: q => if n = k then some { e with path := m :: q } else none
+  | _ => none
+
+def stripT (k : Name) (c : TChange) : Option TChange :=
+  match c.1 with
+  | n :: m :: q => if n = k then some (m :: q, c.2) else none
+  | _ => none
+
+theorem subOf_nestedOf (k : Name) (cs : List TChange) : subOf k (nestedOf cs) = cs.filterMap (stripT k) := by
+  induction cs with
+  | nil => rfl
+  | cons c cs ih =>
+    obtain ⟨p, v⟩ := c
+    cases p with
+    | nil => rw [List.filterMap_cons_none (by rfl)]; simpa [nestedOf] using ih
+    | cons n p' =>
+      cases p' with
+      | nil => rw [List.filterMap_cons_none (by rfl)]; simpa [nestedOf] using ih
+      | cons m q =>
+        simp only [nestedOf, subOf_cons, List.filterMap_cons, stripT, ih]
+        by_cases h : n = k <;> simp [h]
+
+theorem stripT_toDel (k : Name) (e : Entry) : stripT k (toDel e) = (stripHead k e).map toDel := by
+  cases e with
+  | mk p md i =>
+    cases p with
+    | nil => rfl
+    | cons n p' =>
+      cases p' with
+      | nil => rfl
+      | cons m q =>
+        simp only [stripT, stripHead, toDel]
+        by_cases h : n = k <;> simp [h, toDel]
+
+theorem stripT_toSet (k : Name) (e : Entry) : stripT k (toSet e) = (stripHead k e).map toSet := by
+  cases e with
+  | mk p md i =>
+    cases p with
+    | nil => rfl
+    | cons n p' =>
+      cases p' with
+      | nil => rfl
+      | cons m q =>
+        simp only [stripT, stripHead, toSet]
+        by_cases h : n = k <;> simp [h, toSet]
+
+theorem filterMap_congr' {α β : Type} {l : List α} {f g : α → Option β} (h : ∀ a ∈ l, f a = g a) :
+    l.filterMap f = l.filterMap g := by
+  induction l with
+  | nil => rfl
+  | cons x xs ih =>
+    simp only [List.filterMap_cons, h x List.mem_cons_self, ih (fun a ha => h a (List.mem_cons_of_mem _ ha))]
+
+theorem stripHead_some {k : Name} {e e' : Entry} (h : stripHead k e = some e') :
+    e = Entry.under k e' ∧ e'.path ≠ [] := by
+  cases e with
+  | mk p m i =>
+    cases p with
+    | nil => simp [stripHead] at h
+    | cons n p' =>
+      cases p' with
+      | nil => simp [stripHead] at h
+      | cons m' q =>
+        simp only [stripHead] at h
+        split at h
+        · rename_i hn
+          simp only [Option.some.injEq] at h
+          subst h; subst hn
+          simp [Entry.under]
+        · cases h
+
+theorem stripHead_under (k : Name) (e : Entry) (he : e.path ≠ []) : stripHead k (Entry.under k e) = some e := by
+  cases e with
+  | mk p m i =>
+    cases p with
+    | nil => exact absurd rfl he
+    | cons n q => simp [stripHead, Entry.under]
+
+theorem stripHead_under_ne {k m : Name} (h : m ≠ k) (e : Entry) : stripHead k (Entry.under m e) = none := by
+  cases e with
+  | mk p md i =>
+    cases p with
+    | nil => simp [stripHead, Entry.under]
+    | cons n q => simp [stripHead, Entry.under, h]
+
+theorem dirOr_of_find_none {t : Tree} {k : Name} (h : t.find k = none) : dirOr t k = .nil := by
+  simp [dirOr, h]
+
+theorem filterMap_stripHead_flatten {t : Tree} (hwf : t.WF = true) (k : Name) :
+    t.flatten.filterMap (stripHead k) = (dirOr t k).flatten := by
+  induction t with
+  | nil => rfl
+  | file m lf r ih =>
+    simp only [Tree.WF, Bool.and_eq_true] at hwf
+    simp only [Tree.flatten, List.filterMap_cons, stripHead, ih hwf.2]
+    by_cases hk : k = m
+    · subst hk
+      simp [dirOr, Tree.find, find_none_of_allGt hwf.1.2, Tree.flatten]
+    · simp [dirOr, Tree.find, hk]
+  | dir m cs r _ ih =>
+    simp only [Tree.WF, Bool.and_eq_true] at hwf
+    simp only [Tree.flatten, List.filterMap_append, ih hwf.2, List.filterMap_map]
+    by_cases hk : k = m
+    · subst hk
+      have h1 : cs.flatten.filterMap (stripHead k ∘ Entry.under k) = cs.flatten := by
+        have : cs.flatten.filterMap (stripHead k ∘ Entry.under k) = cs.flatten.filterMap some := by
+          apply filterMap_congr'
+          intro e he
+          exact stripHead_under k e (flatten_path_ne_nil e he)
+        rw [this, List.filterMap_some]
+      rw [h1, dirOr_of_find_none (find_none_of_allGt hwf.1.2)]
+      simp [dirOr, Tree.find, Tree.flatten]
+    · have hk' : m ≠ k := fun hh => hk hh.symm
+      have h1 : cs.flatten.filterMap (stripHead k ∘ Entry.under m) = [] := by
+        apply List.filterMap_eq_nil_iff.mpr
+        intro e _
+        exact stripHead_under_ne hk' e
+      rw [h1]
+      simp [dirOr, Tree.find, hk]
+
+theorem filter_filterMap_comm {α β : Type} (l : List α) (f : α → Option β) (c : α → Bool) (c' : β → Bool)
+    (h : ∀ a b, f a = some b → c a = c' b) : (l.filter c).filterMap f = (l.filterMap f).filter c' := by
+  induction l with
+  | nil => rfl
+  | cons a l ih =>
+    cases hf : f a with
+    | none =>
+      by_cases hc : c a = true
+      · rw [List.filter_cons_of_pos hc, List.filterMap_cons_none hf, List.filterMap_cons_none hf, ih]
+      · rw [List.filter_cons_of_neg hc, List.filterMap_cons_none hf, ih]
+    | some b =>
+      have hcb := h a b hf
+      by_cases hc : c a = true
+      · rw [List.filter_cons_of_pos hc, List.filterMap_cons_some hf, List.filterMap_cons_some hf,
+          List.filter_cons_of_pos (by rw [← hcb]; exact hc), ih]
+      · rw [List.filter_cons_of_neg hc, List.filterMap_cons_some hf,
+          List.filter_cons_of_neg (by rw [← hcb]; exact hc), ih]
+
+theorem lookupL_flatten_deep {t : Tree} (hwf : t.WF = true) (k : Name) {q : Path} (hq : q ≠ []) :
+    lookupL t.flatten (k :: q) = (lookupL (dirOr t k).flatten q).map (Entry.under k) := by
+  rw [lookupL_flatten_find hwf]
+  cases hf : t.find k with
+  | none => simp [dirOr, hf, flattenN, Tree.flatten]
+  | some nd =>
+    cases nd with
+    | file l =>
+      have : ¬ ([] = q) := fun h => hq h.symm
+      simp [dirOr, hf, flattenN, Tree.flatten, lookupL_cons, this]
+    | dir s => simp [dirOr, hf, flattenN]
+
+/-- the nested changes of a diff below `k` are the diff of the two sub-trees at `k` -/
+theorem subOf_specT {a b : Tree} (ha : a.WF = true) (hb : b.WF = true) (k : Name) :
+    subOf k (nestedOf (specT a.flatten b.flatten)) = specT (dirOr a k).flatten (dirOr b k).flatten := by
+  rw [subOf_nestedOf]
+  simp only [specT, List.filterMap_append, List.filterMap_map]
+  have e1 : (stripT k ∘ toDel) = fun e => (stripHead k e).map toDel := by funext e; exact stripT_toDel k e
+  have e2 : (stripT k ∘ toSet) = fun e => (stripHead k e).map toSet := by funext e; exact stripT_toSet k e
+  rw [e1, e2, ← List.map_filterMap, ← List.map_filterMap]
+  congr 2
+  · unfold specDels
+    rw [filter_filterMap_comm _ _ _ (fun e => (lookupL (dirOr b k).flatten e.path).isNone),
+      filterMap_stripHead_flatten ha]
+    intro e e' h
+    have := stripHead_some h
+    rw [this.1]
+    show (lookupL b.flatten (k :: e'.path)).isNone = _
+    rw [lookupL_flatten_deep hb k this.2]
+    cases lookupL (dirOr b k).flatten e'.path <;> rfl
+  · unfold specSets
+    rw [filter_filterMap_comm _ _ _ (fun e => lookupL (dirOr a k).flatten e.path != some e),
+      filterMap_stripHead_flatten hb]
+    intro e e' h
+    have := stripHead_some h
+    rw [this.1]
+    show (lookupL a.flatten (k :: e'.path) != some (Entry.under k e')) = _
+    rw [lookupL_flatten_deep ha k this.2, under_ne_iff]
+
+/-! #### direct parts of `specT` in terms of `find` -/
+
+theorem lookupL_single {t : Tree} (hwf : t.WF = true) (k : Name) :
+    lookupL t.flatten [k] = match t.find k with
+      | some (.file l) => some ⟨[k], l.mode, l.id⟩
+      | _ => none := by
+  rw [lookupL_flatten_find hwf]
+  cases hf : t.find k with
+  | none => simp [flattenN]
+  | some nd =>
+    cases nd with
+    | file l => simp [flattenN, lookupL_cons, Entry.under]
+    | dir s => simp [flattenN, lookupL_flatten_nil]
+
+theorem mem_dDels_find {a b : Tree} (ha : a.WF = true) (hb : b.WF = true) (k : Name) :
+    k ∈ dDels (specT a.flatten b.flatten) ↔ (∃ l, a.find k = some (.file l)) ∧ (∀ l, b.find k ≠ some (.file l)) := by
+  rw [mem_dDels_specT]
+  constructor
+  · rintro ⟨e, he, hp, hn⟩
+    have h1 := lookupL_of_mem (flatten_sorted ha) he
+    rw [hp, lookupL_single ha] at h1
+    rw [lookupL_single hb] at hn
+    constructor
+    · cases hf : a.find k with
+      | none => rw [hf] at h1; cases h1
+      | some nd => cases nd with
+        | file l => exact ⟨l, rfl⟩
+        | dir s => rw [hf] at h1; cases h1
+    · intro l hl; rw [hl] at hn; cases hn
+  · rintro ⟨⟨l, hl⟩, hnb⟩
+    have h1 : lookupL a.flatten [k] = some ⟨[k], l.mode, l.id⟩ := by rw [lookupL_single ha, hl]
+    refine ⟨_, lookupL_some_mem h1, rfl, ?_⟩
+    rw [lookupL_single hb]
+    cases hf : b.find k with
+    | none => rfl
+    | some nd => cases nd with
+      | file l' => exact absurd hf (hnb l')
+      | dir s => rfl
+
+theorem assoc_dSets_find {a b : Tree} (ha : a.WF = true) (hb : b.WF = true) (k : Name) :
+    assoc (dSets (specT a.flatten b.flatten)) k = match b.find k with
+      | some (.file l) => if a.find k = some (.file l) then none else some l
+      | _ => none := by
+  have hnd := dSets_specT_nodup a.flatten (flatten_sorted hb)
+  have hmem : ∀ l, (k, l) ∈ dSets (specT a.flatten b.flatten) ↔
+      b.find k = some (.file l) ∧ a.find k ≠ some (.file l) := by
+    intro l
+    rw [mem_dSets_specT]
+    constructor
+    · rintro ⟨he, hne⟩
+      have h1 := lookupL_of_mem (flatten_sorted hb) he
+      rw [lookupL_single hb] at h1
+      rw [lookupL_single ha] at hne
+      constructor
+      · cases hf : b.find k with
+        | none => rw [hf] at h1; cases h1
+        | some nd => cases nd with
+          | file l' =>
+            rw [hf] at h1
+            simp only [Option.some.injEq, Entry.mk.injEq, true_and] at h1
+            have : l' = l := by cases l; cases l'; simp_all
+            rw [this]
+          | dir s => rw [hf] at h1; cases h1
+      · intro hl; rw [hl] at hne; exact hne rfl
+    · rintro ⟨hbl, hal⟩
+      have h1 : lookupL b.flatten [k] = some ⟨[k], l.mode, l.id⟩ := by rw [lookupL_single hb, hbl]
+      refine ⟨lookupL_some_mem h1, ?_⟩
+      rw [lookupL_single ha]
+      cases hf : a.find k with
+      | none => simp
+      | some nd => cases nd with
+        | file l' =>
+          simp only [ne_eq, Option.some.injEq, Entry.mk.injEq, true_and]
+          intro h
+          apply hal
+          rw [hf]
+          have : l' = l := by cases l; cases l'; simp_all
+          rw [this]
+        | dir s => simp
+  cases hf : b.find k with
+  | none =>
+    apply (assoc_none_iff _ k).mpr
+    intro hk
+    rcases List.mem_map.mp hk with ⟨⟨k', l⟩, hm, rfl⟩
+    have := (hmem l).mp hm
+    rw [hf] at this; cases this.1
+  | some nd =>
+    cases nd with
+    | dir s =>
+      apply (assoc_none_iff _ k).mpr
+      intro hk
+      rcases List.mem_map.mp hk with ⟨⟨k', l⟩, hm, rfl⟩
+      have := (hmem l).mp hm
+      rw [hf] at this; cases this.1
+    | file l =>
+      by_cases hal : a.find k = some (.file l)
+      · simp only [hal, if_true]
+        apply (assoc_none_iff _ k).mpr
+        intro hk
+        rcases List.mem_map.mp hk with ⟨⟨k', l'⟩, hm, rfl⟩
+        have := (hmem l').mp hm
+        rw [hf] at this
+        have hl : l = l' := by have := this.1; simp only [Option.some.injEq, Node.file.injEq] at this; exact this
+        subst hl
+        exact this.2 hal
+      · simp only [hal, if_false]
+        exact assoc_of_mem hnd (g := (k, l)) ((hmem l).mpr ⟨hf, hal⟩)
+
+/-! #### when the diff is empty; trees with the same entries -/
+
+theorem tree_ext {a b : Tree} (ha : a.WF = true) (hb : b.WF = true) (h : ∀ k, a.find k = b.find k) : a = b := by
+  apply flatten_inj ha hb
+  apply sorted_ext (flatten_sorted ha) (flatten_sorted hb)
+  intro p
+  cases p with
+  | nil => rw [lookupL_flatten_nil, lookupL_flatten_nil]
+  | cons k q => rw [lookupL_flatten_find ha, lookupL_flatten_find hb, h k]
+
+theorem specT_nil_eq {a b : Tree} (ha : a.WF = true) (hb : b.WF = true)
+    (h : specT a.flatten b.flatten = []) : a = b := by
+  simp only [specT, List.append_eq_nil_iff, List.map_eq_nil_iff] at h
+  have hd : ∀ e ∈ a.flatten, lookupL b.flatten e.path ≠ none := by
+    intro e he hn
+    have : e ∈ specDels a.flatten b.flatten := List.mem_filter.mpr ⟨he, by rw [hn]; rfl⟩
+    rw [h.1] at this; cases this
+  have hs : ∀ e ∈ b.flatten, lookupL a.flatten e.path = some e := by
+    intro e he
+    by_cases hh : lookupL a.flatten e.path = some e
+    · exact hh
+    · have : e ∈ specSets a.flatten b.flatten := List.mem_filter.mpr ⟨he, by simpa using hh⟩
+      rw [h.2] at this; cases this
+  apply flatten_inj ha hb
+  apply sorted_ext (flatten_sorted ha) (flatten_sorted hb)
+  intro p
+  cases hbp : lookupL b.flatten p with
+  | some e =>
+    have := hs e (lookupL_some_mem hbp)
+    rw [lookupL_some_path hbp] at this
+    exact this
+  | none =>
+    cases hap : lookupL a.flatten p with
+    | none => rfl
+    | some e =>
+      have := hd e (lookupL_some_mem hap)
+      rw [lookupL_some_path hap] at this
+      exact absurd hbp this
+
+theorem dirOr_WF {t : Tree} (h : t.WF = true) (k : Name) : (dirOr t k).WF = true := by
+  unfold dirOr
+  cases hf : t.find k with
+  | none => rfl
+  | some nd => cases nd with
+    | file l => rfl
+    | dir s => exact find_dir_WF h hf
+
+theorem find_dir_nonnil {t : Tree} (h : t.WF = true) {k : Name} {s : Tree} (hf : t.find k = some (.dir s)) :
+    s.isNil = false := by
+  induction t with
+  | nil => cases hf
+  | file m lf r ih =>
+    simp only [Tree.WF, Bool.and_eq_true] at h
+    simp only [Tree.find] at hf
+    split at hf
+    · cases hf
+    · exact ih h.2 hf
+  | dir m cs r _ ih =>
+    simp only [Tree.WF, Bool.and_eq_true, Bool.not_eq_true'] at h
+    simp only [Tree.find] at hf
+    split at hf
+    · simp only [Option.some.injEq, Node.dir.injEq] at hf; subst hf; exact h.1.1.1
+    · exact ih h.2 hf
+
+theorem specT_ne_nil_left {s : Tree} (hs : s.WF = true) (hn : s.isNil = false) : specT s.flatten [] ≠ [] := by
+  rcases flatten_ne_nil hs hn with ⟨e, he⟩
+  intro h
+  simp only [specT, List.append_eq_nil_iff, List.map_eq_nil_iff] at h
+  have : e ∈ specDels s.flatten [] := List.mem_filter.mpr ⟨he, rfl⟩
+  rw [h.1] at this; cases this
+
+theorem specT_mem_ne_nil {a b : Tree} : ∀ c ∈ specT a.flatten b.flatten, c.1 ≠ [] := by
+  intro c hc
+  simp only [specT, List.mem_append, List.mem_map] at hc
+  rcases hc with ⟨e, he, rfl⟩ | ⟨e, he, rfl⟩
+  · exact flatten_path_ne_nil e (List.mem_filter.mp he).1
+  · exact flatten_path_ne_nil e (List.mem_filter.mp he).1
+
+/-! #### commit_tree_changes applied to the diff of two trees rebuilds the second tree -/
+
+theorem dirOr_eq_nil_or {t : Tree} (k : Name) :
+    (dirOr t k = .nil ∧ ∀ s, t.find k ≠ some (.dir s)) ∨ (∃ s, t.find k = some (.dir s) ∧ dirOr t k = s) := by
+  unfold dirOr
+  cases hf : t.find k with
+  | none => left; exact ⟨rfl, fun s h => by cases h⟩
+  | some nd => cases nd with
+    | file l => left; exact ⟨rfl, fun s h => by cases h⟩
+    | dir s => right; exact ⟨s, rfl, rfl⟩
+
+/-- one level: if the recursive calls on the sub-trees are right, so is this call -/
+theorem ctc_step (fuel : Nat) {a b : Tree} (ha : a.WF = true) (hb : b.WF = true)
+    (hrec : ∀ k, specT (dirOr a k).flatten (dirOr b k).flatten ≠ [] →
+      ctcAux fuel (dirOr a k) (specT (dirOr a k).flatten (dirOr b k).flatten) = .ok (dirOr b k)) :
+    ctcAux (fuel + 1) a (specT a.flatten b.flatten) = .ok b := by
+  have hne := specT_mem_ne_nil (a := a) (b := b)
+  -- first loop
+  have hdd := dDels_specT_nodup (flatten_sorted ha) b.flatten
+  have hdm := mem_dDels_find ha hb
+  have hdex : ∀ n ∈ dDels (specT a.flatten b.flatten), a.find n ≠ none := by
+    intro n hn
+    rcases ((hdm n).mp hn).1 with ⟨l, hl⟩
+    rw [hl]; exact fun h => by cases h
+  rcases delAll_spec _ a ha hdd hdex with ⟨a1, hda, hwf1, hf1⟩
+  -- groups
+  have hG := groupAll_spec (nestedOf (specT a.flatten b.flatten)) [] (by simp [gnames])
+  have hsub : ∀ k, subOf k (nestedOf (specT a.flatten b.flatten)) =
+      specT (dirOr a k).flatten (dirOr b k).flatten := subOf_specT ha hb
+  have hGmem : ∀ k, k ∈ gnames (groupAll [] (nestedOf (specT a.flatten b.flatten))) ↔
+      specT (dirOr a k).flatten (dirOr b k).flatten ≠ [] := by
+    intro k; rw [hG.2.2 k, hsub k]; simp [gnames]
+  have hcond : ∀ g ∈ groupAll [] (nestedOf (specT a.flatten b.flatten)),
+      ∃ sub, ctcOrig a1 g.1 = .ok sub ∧ ctcAux fuel sub g.2 = .ok (dirOr b g.1) ∧ (dirOr b g.1).WF = true ∧
+        ((dirOr b g.1).isNil = true → a1.find g.1 ≠ none) := by
+    intro g hg
+    have hgn : specT (dirOr a g.1).flatten (dirOr b g.1).flatten ≠ [] :=
+      (hGmem g.1).mp (List.mem_map_of_mem hg)
+    have hg2 : g.2 = specT (dirOr a g.1).flatten (dirOr b g.1).flatten := by
+      have h1 := assoc_of_mem hG.1 hg
+      rw [hG.2.1 g.1, hsub g.1] at h1
+      simp only [hgn, if_false, assoc, List.find?_nil, Option.map_none, Option.getD_none, List.nil_append,
+        Option.some.injEq] at h1
+      exact h1.symm
+    refine ⟨dirOr a g.1, ?_, by rw [hg2]; exact hrec g.1 hgn, dirOr_WF hb g.1, ?_⟩
+    · -- the sub-tree the group starts from
+      have hfa := hf1 g.1
+      cases hfind : a.find g.1 with
+      | none =>
+        have : a1.find g.1 = none := by rw [hfa, hfind]; split <;> rfl
+        simp [ctcOrig, this, dirOr, hfind]
+      | some nd =>
+        cases nd with
+        | dir s =>
+          have hnd : g.1 ∉ dDels (specT a.flatten b.flatten) := by
+            intro hm
+            rcases ((hdm g.1).mp hm).1 with ⟨l, hl⟩
+            rw [hfind] at hl; cases hl
+          have : a1.find g.1 = some (.dir s) := by rw [hfa, hfind]; simp [hnd]
+          simp [ctcOrig, this, dirOr, hfind]
+        | file l =>
+          have hda' : dirOr a g.1 = .nil := by simp [dirOr, hfind]
+          have hbdir : ∃ s, b.find g.1 = some (.dir s) := by
+            rcases dirOr_eq_nil_or (t := b) g.1 with ⟨hbn, _⟩ | ⟨s, hs, _⟩
+            · exfalso; apply hgn; rw [hda', hbn]; rfl
+            · exact ⟨s, hs⟩
+          rcases hbdir with ⟨s, hs⟩
+          have hin : g.1 ∈ dDels (specT a.flatten b.flatten) :=
+            (hdm g.1).mpr ⟨⟨l, hfind⟩, fun l' hl' => by rw [hs] at hl'; cases hl'⟩
+          have : a1.find g.1 = none := by rw [hfa]; simp [hin]
+          simp [ctcOrig, this, hda']
+    · intro hnil
+      have hbn : dirOr b g.1 = .nil := by cases hd : dirOr b g.1 <;> simp_all [Tree.isNil]
+      rcases dirOr_eq_nil_or (t := a) g.1 with ⟨han, _⟩ | ⟨s, hs, _⟩
+      · exfalso; apply hgn; rw [han, hbn]; rfl
+      · have hnd : g.1 ∉ dDels (specT a.flatten b.flatten) := by
+          intro hm
+          rcases ((hdm g.1).mp hm).1 with ⟨l, hl⟩
+          rw [hs] at hl; cases hl
+        rw [hf1 g.1, hs]; simp [hnd]
+  rcases groups_fold_spec (ctcAux fuel) (fun k => dirOr b k) _ a1 hwf1 hG.1 hcond with ⟨a2, hfold, hwf2, hf2⟩
+  -- third loop
+  have hsl : ∀ s ∈ dSets (specT a.flatten b.flatten), isDirMode s.2.mode = false := by
+    intro s hs
+    have := (mem_dSets_specT (k := s.1) (l := s.2)).mp hs
+    exact flatten_modes_ok hb _ this.1
+  have hS := ctcSets_spec (dSets (specT a.flatten b.flatten)) a2 hwf2 hsl
+    (dSets_specT_nodup a.flatten (flatten_sorted hb))
+  have hres : ctcAux (fuel + 1) a (specT a.flatten b.flatten) =
+      .ok (ctcSets a2 (dSets (specT a.flatten b.flatten))) := by
+    simp only [ctcAux, ctcDirect_eq _ hne, hda, List.nil_append, hfold]
+  rw [hres]
+  congr 1
+  apply tree_ext hS.1 hb
+  intro k
+  rw [hS.2 k, assoc_dSets_find ha hb k, hf2 k, hf1 k]
+  -- case analysis on what `b` and `a` hold at `k`
+  cases hbk : b.find k with
+  | none =>
+    have hbn : dirOr b k = .nil := by simp [dirOr, hbk]
+    simp only [hbn, Tree.isNil, if_true]
+    cases hak : a.find k with
+    | none => simp
+    | some nd =>
+      cases nd with
+      | file l =>
+        have hin : k ∈ dDels (specT a.flatten b.flatten) :=
+          (hdm k).mpr ⟨⟨l, hak⟩, fun l' hl' => by rw [hbk] at hl'; cases hl'⟩
+        simp [hin]
+      | dir s =>
+        have hkG : k ∈ gnames (groupAll [] (nestedOf (specT a.flatten b.flatten))) := by
+          rw [hGmem, hbn]
+          have : dirOr a k = s := by simp [dirOr, hak]
+          rw [this]
+          exact specT_ne_nil_left (find_dir_WF ha hak) (find_dir_nonnil ha hak)
+        simp [hkG]
+  | some nd =>
+    cases nd with
+    | file l =>
+      have hbn : dirOr b k = .nil := by simp [dirOr, hbk]
+      by_cases hal : a.find k = some (.file l)
+      · have han : dirOr a k = .nil := by simp [dirOr, hal]
+        have hkG : k ∉ gnames (groupAll [] (nestedOf (specT a.flatten b.flatten))) := by
+          rw [hGmem, han, hbn]; exact fun h => h rfl
+        have hnd : k ∉ dDels (specT a.flatten b.flatten) := by
+          intro hm; exact ((hdm k).mp hm).2 l hbk
+        simp [hal, hkG, hnd]
+      · simp [hal]
+    | dir s =>
+      have hbs : dirOr b k = s := by simp [dirOr, hbk]
+      have hsn : s.isNil = false := find_dir_nonnil hb hbk
+      simp only []
+      by_cases hkG : k ∈ gnames (groupAll [] (nestedOf (specT a.flatten b.flatten)))
+      · simp [hkG, hbs, hsn]
+      · have hempty : specT (dirOr a k).flatten (dirOr b k).flatten = [] := by
+          by_cases hh : specT (dirOr a k).flatten (dirOr b k).flatten = []
+          · exact hh
+          · exact absurd ((hGmem k).mpr hh) hkG
+        have heq : dirOr a k = dirOr b k := specT_nil_eq (dirOr_WF ha k) (dirOr_WF hb k) hempty
+        have hak : a.find k = some (.dir s) := by
+          rcases dirOr_eq_nil_or (t := a) k with ⟨han, _⟩ | ⟨s', hs', hd'⟩
+          · rw [han, hbs] at heq; rw [← heq] at hsn; cases hsn
+          · rw [hd', hbs] at heq; rw [hs', heq]
+        have hnd : k ∉ dDels (specT a.flatten b.flatten) := by
+          intro hm
+          rcases ((hdm k).mp hm).1 with ⟨l, hl⟩
+          rw [hak] at hl; cases hl
+        simp [hkG, hnd, hak]
+
+theorem stripT_some {k : Name} {c0 c : TChange} (h : stripT k c0 = some c) : c0.1 = k :: c.1 := by
+  obtain ⟨p, v⟩ := c0
+  cases p with
+  | nil => simp [stripT] at h
+  | cons n p' =>
+    cases p' with
+    | nil => simp [stripT] at h
+    | cons m q =>
+      simp only [stripT] at h
+      split at h
+      · rename_i hn
+        simp only [Option.some.injEq] at h
+        subst h; subst hn; rfl
+      · cases h
+
+theorem mem_specT_sub {a b : Tree} (ha : a.WF = true) (hb : b.WF = true) {k : Name} {c : TChange}
+    (hc : c ∈ specT (dirOr a k).flatten (dirOr b k).flatten) :
+    ∃ c0 ∈ specT a.flatten b.flatten, c0.1 = k :: c.1 := by
+  rw [← subOf_specT ha hb k, subOf_nestedOf, List.mem_filterMap] at hc
+  rcases hc with ⟨c0, hc0, hs⟩
+  exact ⟨c0, hc0, stripT_some hs⟩
+
+theorem le_maxLen : ∀ (cs : List TChange), ∀ c ∈ cs, c.1.length ≤ maxLen cs := by
+  intro cs
+  induction cs with
+  | nil => intro c hc; cases hc
+  | cons x xs ih =>
+    intro c hc
+    simp only [maxLen]
+    rcases List.mem_cons.mp hc with rfl | hc
+    · omega
+    · have := ih c hc; omega
+
+/-- commit_tree_changes applied to the change list of the diff `a → b` returns `b` (any sufficient fuel) -/
+theorem ctcAux_specT : ∀ (fuel : Nat) (a b : Tree), a.WF = true → b.WF = true →
+    (∀ c ∈ specT a.flatten b.flatten, c.1.length ≤ fuel) →
+    ctcAux (fuel + 1) a (specT a.flatten b.flatten) = .ok b := by
+  intro fuel
+  induction fuel with
+  | zero =>
+    intro a b ha hb hlen
+    apply ctc_step 0 ha hb
+    intro k hne
+    exfalso
+    cases hs : specT (dirOr a k).flatten (dirOr b k).flatten with
+    | nil => exact hne hs
+    | cons c cs =>
+      rcases mem_specT_sub ha hb (k := k) (c := c) (by rw [hs]; exact List.mem_cons_self) with ⟨c0, hc0, hp⟩
+      have := hlen c0 hc0
+      rw [hp] at this
+      simp at this
+  | succ f ih =>
+    intro a b ha hb hlen
+    apply ctc_step (f + 1) ha hb
+    intro k _
+    apply ih (dirOr a k) (dirOr b k) (dirOr_WF ha k) (dirOr_WF hb k)
+    intro c hc
+    rcases mem_specT_sub ha hb hc with ⟨c0, hc0, hp⟩
+    have := hlen c0 hc0
+    rw [hp] at this
+    simp at this
+    omega
+
+theorem commitTreeChanges_specT {a b : Tree} (ha : a.WF = true) (hb : b.WF = true) :
+    commitTreeChanges a (specT a.flatten b.flatten) = .ok b :=
+  ctcAux_specT _ a b ha hb (le_maxLen _)
 
 end Dulwich.TreeOps
